@@ -1,4 +1,5 @@
 import QuantemModel.Lemmas.ForwardLoss
+import QuantemModel.Lemmas.ForwardState
 /-!
 C02 — the ptychography forward pipeline reproduces independently simulated data.
 
@@ -425,5 +426,150 @@ theorem scan_positions_general_plain (g : Geometry) (hs1 : 0 ≤ g.stepR) (hs2 :
 example : (({ gr := 4, gc := 3, stepR := 7 / 4, stepC := 3 / 2, sampR := 1, sampC := 1 / 2, R0 := 8, R1 := 6, padR := 2, padC := 3 } : Geometry).padUsedR,
            ({ gr := 4, gc := 3, stepR := 7 / 4, stepC := 3 / 2, sampR := 1, sampC := 1 / 2, R0 := 8, R1 := 6, padR := 2, padC := 3 } : Geometry).H) = (5, 16) := by
   decide +kernel
+
+/-! ## 7. state carried between public calls (growth round 5): histories that contain REJECTED calls
+
+`Model/ForwardState.lean` models, as state machines over arbitrary histories of calls, the three pieces of
+state the pipeline reads: slice thicknesses → propagators, pattern stacks → targets, scan positions →
+cached patch indices.  A call may be refused (the library raises); every theorem quantifies over ALL
+histories, refused calls included. -/
+section State
+open QuantemModel.ForwardState
+
+/-- **nearest pixel and sub-pixel shift are one decomposition of the position**: `round(p) + frac(p) = p`
+and the Fourier shift is at most half a pixel — for every position, ties included.  (The patch origin of
+`_set_patch_indices` and the probe shift of `dset.forward` are the two halves.) -/
+theorem nearest_pixel_plus_fraction (q : ℚ) :
+    ((roundHalfEven q : ℤ) : ℚ) + fracPos q = q ∧ -(1 / 2 : ℚ) ≤ fracPos q ∧ fracPos q ≤ 1 / 2 :=
+  ⟨round_add_frac q, frac_abs_le q⟩
+
+/-- **exact ties go to the even neighbour, integers stay** (`torch.round`): a position `k + ½` is cut around
+pixel `k` when `k` is even and around `k + 1` when `k` is odd -/
+theorem round_ties_to_even (k : ℤ) :
+    roundHalfEven ((k : ℚ) + 1 / 2) = (if k % 2 = 0 then k else k + 1) ∧ roundHalfEven (k : ℚ) = k :=
+  ⟨round_tie k, round_int k⟩
+
+/-- **a refused call changes nothing** — thickness setter (both entry points), `_set_targets` / stack
+setters / a `preprocess` that raises, scan-position setter -/
+theorem rejected_call_changes_nothing {α : Type} :
+    (∀ (g : PropGeom ℝ) (s : Slab ℝ) (op : ThickOp ℝ), (s.step g op).2 = true → (s.step g op).1 = s)
+      ∧ (∀ (s : TState α) (op : TOp α), (s.step op).2 = true → (s.step op).1 = s)
+      ∧ (∀ (s : PosState) (op : PosOp), (s.step op).2 = true → (s.step op).1 = s) :=
+  ⟨fun g s op h => s.step_rejected g op h, fun s op h => s.step_rejected op h, fun s op h => s.step_rejected op h⟩
+
+/-- **the per-slice thickness setter accepts exactly the admissible lists**: a sequence of two or more
+entries is stored (as given) iff it has one strictly positive entry per gap; otherwise the call raises -/
+theorem thickness_setter_exact (n : ℕ) (xs : List ℝ) (h2 : 2 ≤ xs.length) :
+    (thickValue n (.seq xs) = .ok xs ↔ (xs.length = n - 1 ∧ ∀ x ∈ xs, 0 < x))
+      ∧ ((xs.length ≠ n - 1 ∨ ∃ x ∈ xs, x ≤ 0) → thickValue n (.seq xs) = .error "ValueError") :=
+  ⟨thickValue_seq_iff n xs h2, thickValue_seq_error n xs h2⟩
+
+/-- **invariant over every history** (assignments through `ptycho.slice_thicknesses` or
+`obj_model.slice_thicknesses` in any form — `None`, scalar, sequence —, accepted or refused, and calls that
+rebuild the propagators): the model holds one strictly positive thickness per gap, and the number of slices
+never changes -/
+theorem thickness_history_invariant (g : PropGeom ℝ) (s : Slab ℝ) (hs : ValidThick s.numSlices s.thick)
+    (ops : List (ThickOp ℝ)) :
+    (s.run g ops).numSlices = s.numSlices ∧ ValidThick s.numSlices (s.run g ops).thick := by
+  have h := Slab.run_valid g s hs ops
+  rw [Slab.run_numSlices] at h
+  exact ⟨Slab.run_numSlices g s ops, h⟩
+
+/-- **the last ACCEPTED assignment wins; refused ones leave no trace**: after any history the thicknesses are
+the value stored by the last accepted assignment (the initial ones if there was none), and the whole state
+equals that of the same history with every refused call deleted -/
+theorem thickness_last_accepted_wins (g : PropGeom ℝ) (s : Slab ℝ) (ops : List (ThickOp ℝ)) :
+    (s.run g ops).thick = (lastAccepted s.numSlices ops).getD s.thick
+      ∧ s.run g ops = s.run g (ops.filter fun op => !op.rejected s.numSlices) :=
+  ⟨Slab.run_thick g s ops, Slab.run_filter_rejected g s ops⟩
+
+/-- **after any history, the next call that rebuilds the propagators (`reconstruct`, `preprocess`,
+`reset_recon`) builds the specification's Fresnel kernels of the last ACCEPTED thicknesses** (in FFT order) —
+so `forward_eq_spec` / `loss_zero` apply with exactly those thicknesses, whatever was refused in between -/
+theorem history_propagators_eq_spec (g : PropGeom ℝ) (s : Slab ℝ) (hs : ValidThick s.numSlices s.thick)
+    (ops : List (ThickOp ℝ)) :
+    (s.run g (ops ++ [.rebuild])).props
+      = (Spec.kernels g.nr g.nc g.sr g.sc g.energy ((lastAccepted s.numSlices ops).getD s.thick)).map ifftshift2 := by
+  rw [Slab.run_append, ← Slab.run_thick g s ops]
+  have hv := Slab.run_valid g s hs ops
+  have hn := Slab.run_numSlices g s ops
+  show PropGeom.build g (s.run g ops).numSlices (s.run g ops).thick = _
+  unfold PropGeom.build
+  rw [NumReal.zero_eq]
+  apply propagatorArrays_eq_kernels
+  intro h1
+  have : (s.run g ops).thick.length = 0 := by rw [hv.1, h1]
+  exact List.length_eq_zero_iff.mp this
+
+/-- **the cached patch indices are never stale**: start from a coherent state, apply ANY history of
+scan-position assignments (accepted or refused by the shape check), forward passes and index refreshes;
+after the next `dset.forward` the indices it returns are those of the current positions, which are the
+assigned positions clipped into the object box — whether they were recomputed or served from the cache -/
+theorem patch_index_cache_fresh (s : PosState) (hs : s.Coherent) (ops : List PosOp) :
+    let t := s.run ops
+    let u := (t.step .forward).1
+    u.idx = indicesOf s.H s.W s.R0 s.R1 u.pos ∧ u.pos = t.pos.map (clipPosition s.H s.W)
+      ∧ s.run (ops ++ [.forward]) = u := by
+  intro t u
+  have hc : t.Coherent := s.run_coherent hs ops
+  have hg : t.H = s.H ∧ t.W = s.W ∧ t.R0 = s.R0 ∧ t.R1 = s.R1 := by
+    show (s.run ops).H = s.H ∧ (s.run ops).W = s.W ∧ (s.run ops).R0 = s.R0 ∧ (s.run ops).R1 = s.R1
+    unfold PosState.run
+    induction ops generalizing s with
+    | nil => exact ⟨rfl, rfl, rfl, rfl⟩
+    | cons op ops ih =>
+      have h1 := s.step_geom op
+      have h2 := ih (s.step op).1 (s.step_coherent hs op) (PosState.run_coherent _ (s.step_coherent hs op) ops)
+      simp only [List.foldl_cons]
+      exact ⟨h2.1.trans h1.1, h2.2.1.trans h1.2.1, h2.2.2.1.trans h1.2.2.1, h2.2.2.2.trans h1.2.2.2.1⟩
+  have hf := t.forward_fresh hc
+  rw [hg.1, hg.2.1, hg.2.2.1, hg.2.2.2] at hf
+  exact ⟨hf.1, hf.2, by rw [PosState.run_append]; rfl⟩
+
+/-- **`preprocess` installs the targets of the data it has just centred** (`_set_targets("l2_amplitude")`
+at its end copies the NEW stack), whatever happened before -/
+theorem preprocess_installs_amplitude_targets {α : Type} (s : TState α) (h : List (TOp α)) (new : Stacks α) :
+    (s.run (h ++ [.preprocess new])).targets = new.get (if (s.run h).fitDescan then .amp else .centredAmp)
+      ∧ (s.run (h ++ [.preprocess new])).stacks = new := by
+  rw [TState.run_append]
+  have := (s.run h).preprocess_state new
+  exact ⟨this.2.2, this.1⟩
+
+/-- **targets are never stale after re-preprocessing**: for ANY earlier history `h` (other preprocessings,
+other loss types, refused calls), a `preprocess` producing the stacks `new`, then any number of refused calls
+and `_set_targets` calls, then the `_set_targets(loss)` of a `reconstruct()`: the targets are the stack of
+`new` that this loss type selects — exactly what a dataset preprocessed once would hold -/
+theorem targets_fresh_after_repreprocess {α : Type} (s : TState α) (h mid : List (TOp α)) (new : Stacks α)
+    (fam : LossFamily) (n : StackName) (hmid : ∀ op ∈ mid, op.inert = true)
+    (hsrc : targetSource fam (s.run h).fitDescan = some n) :
+    (s.run (h ++ [.preprocess new] ++ mid ++ [.setTargets fam])).targets = new.get n := by
+  rw [TState.run_append, TState.run_append, TState.run_append]
+  have hp := (s.run h).preprocess_state new
+  have hm := TState.run_inert ((s.run h).run [.preprocess new]) mid hmid
+  have hp1 : ((s.run h).run [.preprocess new]).stacks = new := hp.1
+  have hp2 : ((s.run h).run [.preprocess new]).fitDescan = (s.run h).fitDescan := hp.2.1
+  show ((((s.run h).run [.preprocess new]).run mid).step (.setTargets fam)).1.targets = _
+  simp only [TState.step]
+  rw [hm.2, hp2, hsrc]
+  simp only
+  rw [hm.1, hp1]
+
+-- non-vacuity / literal instances
+example : roundHalfEven ((4 : ℚ) + 1 / 2) = 4 ∧ roundHalfEven ((5 : ℚ) + 1 / 2) = 6 ∧ fracPos (9 / 2) = 1 / 2 := by decide +kernel
+example : ValidThick 3 [6, 13] := ⟨rfl, by intro x hx; simp at hx; rcases hx with rfl | rfl <;> norm_num⟩
+-- the seeded history of round 5: a refused per-slice list on a 3-slice model, then a rebuild
+example : thickValue 3 (.seq [(6 : ℝ), -13]) = .error "ValueError" :=
+  thickValue_seq_error 3 _ (by simp) (Or.inr ⟨-13, by simp, by norm_num⟩)
+example : (thickValue 3 (.seq [(6 : ℚ), -13])).toOption = none ∧ (thickValue 3 (.seq [(6 : ℚ), 13])).toOption = some [6, 13]
+    ∧ (thickValue 3 (.scalar (0 : ℚ))).toOption = none ∧ (thickValue 3 (.scalar (5 / 2 : ℚ))).toOption = some [5 / 2, 5 / 2]
+    ∧ (thickValue 1 (ThickArg.none : ThickArg ℚ)).toOption = some [] ∧ (thickValue 2 (ThickArg.none : ThickArg ℚ)).toOption = none := by
+  refine ⟨?_, ?_, ?_, ?_, ?_, ?_⟩ <;> decide +kernel
+example : targetSource .intensity false = some .centredInt ∧ targetSource .amplitude true = some .amp
+    ∧ targetSource .unknown false = none := by decide
+example : (TOp.preprocessRejected : TOp ℕ).inert = true ∧ (TOp.assignStack .centredAmp (3 : ℕ) false).inert = true := by decide
+example : ({ H := 8, W := 8, R0 := 2, R1 := 2, n := 1, pos := [(5 / 2, 3)], last := [(5 / 2, 3)],
+             idx := indicesOf 8 8 2 2 [(5 / 2, 3)] } : PosState).Coherent := rfl
+
+end State
 
 end QuantemModel.Props.C02
